@@ -114,6 +114,9 @@ def header_words(terms: List[T], ev: T) -> List[int]:
 
 
 def check(repo: Repo, run: Run) -> None:
+    take_over(run, "c04", "C04", repo, lambda o: o["rule"] == "K6" and o["construct"] == "domain selection", "R0",
+              "pairing domain of the string records", "the kernel trace-string records pair among themselves: a record of another "
+              "kind that is put into their windows has its argument bytes joined into the reassembled text", 1)
     take_over(run, "c04", "C04", repo, lambda o: o["rule"] == "K11" and "VFS_LOOKUP" in o["construct"], "R0",
                "lookup trace", "a reassembled lookup (of any length, the empty path included) then gives no lookup trace "
                "at all", 1)
